@@ -110,10 +110,11 @@ func respScripts(tier string) []respScript {
 }
 
 type c16world struct {
-	backend *Backend
-	proxy   http.Handler
-	events  []int
-	url     *url.URL
+	backend  *Backend
+	proxy    http.Handler
+	events   []int
+	url      *url.URL
+	deadline time.Duration // >0: the request context carries this deadline
 }
 
 func newC16World() *c16world {
@@ -153,6 +154,11 @@ func (w *c16world) exchange(script []step, target *url.URL, cancelOnArrival bool
 	// the request carries http.ServerContextKey exactly as under a real http.Server: the
 	// reverse proxy aborts a broken exchange (panic ErrAbortHandler) only then
 	ctx, cancel := context.WithCancel(context.WithValue(context.Background(), http.ServerContextKey, &http.Server{}))
+	if w.deadline > 0 {
+		var c2 context.CancelFunc
+		ctx, c2 = context.WithTimeout(ctx, w.deadline)
+		defer c2()
+	}
 	req := httptest.NewRequest("GET", "http://front.example/x?y=1", nil).WithContext(ctx)
 	req.RequestURI = "/x?y=1"
 	done := make(chan outcome, 1)
@@ -363,6 +369,19 @@ func runSpecials(w *c16world, rep *lib.Report) {
 		rep.Evaluations++
 		if o.hung || o.panic != nil || (o.code != 500 && o.code != 502) || !eventsOK(o.events) {
 			rep.Violate("C16:wrong-gateway-status:garbage-head", fmt.Sprintf("backend answered %q: client got %d (panic %v hung %v events %v), want an error status", g, o.code, o.panic, o.hung, o.events), what("garbage"))
+		} else {
+			rep.Count("gateway_errors_mapped")
+		}
+	}
+	// a timeout middleware in front of the forwarder: the response deadline is a deadline on the request context
+	{
+		w.deadline = 40 * time.Millisecond // well before the transport's own 150ms response-header timeout
+		o, done := w.exchange([]step{{kind: stepStall}}, nil, false)
+		w.deadline = 0
+		done()
+		rep.Evaluations++
+		if o.hung || o.panic != nil || o.code != 504 || !eventsOK(o.events) {
+			rep.Violate("C16:wrong-gateway-status:context-deadline", fmt.Sprintf("backend stalls, request context has a deadline: client got %d/%d (panic %v hung %v events %v), want 504", o.code, o.pwCode, o.panic, o.hung, o.events), what("ctx-deadline"))
 		} else {
 			rep.Count("gateway_errors_mapped")
 		}
